@@ -2,6 +2,8 @@ package loadbalancer
 
 import (
 	"fmt"
+	"github.com/0xReLogic/Helios/internal/config"
+	"strings"
 	"testing"
 	"time"
 
@@ -23,9 +25,9 @@ type c04sParams struct {
 func c04sScenario(p c04sParams, bound int) vh.SScenario {
 	return vh.SScenario{Name: "health-race-" + p.Scenario + "-" + p.Strategy, KeyPrefix: "C04/race", Bound: bound, Params: p, Body: func(x *vh.Exec) {
 		s := x.S
-		k := newKit(s, kitOpts{Strategy: p.Strategy, N: 2, PassiveThr: 1, Window: 10, Active: p.Scenario == "probe-vs-ejection"})
+		k := newKit(s, kitOpts{Strategy: p.Strategy, N: 2, PassiveThr: 1, Window: 10, Active: strings.HasPrefix(p.Scenario, "probe-")})
 		b0 := k.backendByName("b0")
-		if p.Scenario == "probe-vs-ejection" {
+		if strings.HasPrefix(p.Scenario, "probe-") {
 			s.Settle() // initial probe round
 		}
 		ejectedAt := time.Duration(-1)
@@ -91,6 +93,21 @@ func c04sScenario(p c04sParams, bound int) vh.SScenario {
 				k.lb.MarkBackendUnhealthy(b0, c04Window)
 			}))
 			ejectedAt = s.Clock()
+		case "probe-vs-reregistration":
+			// a probe of b0 is on its way while b0 is removed, registered again under the same
+			// name and ejected: what the late probe reports is about the backend that is gone
+			s.Branch(true)
+			ths = append(ths, s.Spawn("prober", func() { k.lb.checkBackendHealth(b0) }))
+			ths = append(ths, s.Spawn("operator", func() {
+				k.lb.RemoveBackend("b0")
+				if err := k.lb.AddBackend(config.BackendConfig{Name: "b0", Address: "http://b0.test:80", Weight: 1}); err != nil {
+					vh.ToolError("re-adding b0: %v", err)
+				}
+				nb := k.backendByName("b0")
+				k.adopt(nb)
+				k.lb.MarkBackendUnhealthy(nb, c04Window)
+			}))
+			ejectedAt = s.Clock()
 		}
 		s.Join(ths...)
 		s.Branch(false)
@@ -122,7 +139,7 @@ func TestVerifC04S(t *testing.T) {
 		strategies = allStrategies
 	}
 	i := 0
-	for _, sc := range []string{"expiry-vs-ejection", "two-expiries", "probe-vs-ejection"} {
+	for _, sc := range []string{"expiry-vs-ejection", "two-expiries", "probe-vs-ejection", "probe-vs-reregistration"} {
 		for _, st := range strategies {
 			if vh.MyShard(i) {
 				vh.RunS(r, "TestVerifC04S", c04sScenario(c04sParams{sc, st}, bound))
